@@ -48,18 +48,47 @@ func CLIWithEnv(extra []string, storageDir string, args ...string) (int, string,
 }
 
 func cliOnce(extra []string, storageDir string, args ...string) (int, string, string, error) {
-	bin, err := DirkBin()
-	if err != nil {
-		return -1, "", "", err
-	}
 	base, err := os.MkdirTemp(filepath.Dir(filepath.Clean(storageDir)), "cli-base-")
 	if err != nil {
 		return -1, "", "", err
 	}
 	defer os.RemoveAll(base)
+	return cliRun(append([]string{"DIRK_STORAGE_PATH=" + storageDir}, extra...), base, "", args...)
+}
+
+// CLIConfigured runs the real dirk binary the way an operator with a configuration directory does: base is the
+// configuration directory (--base-dir), storagePath is the configured storage-path (relative paths are relative to
+// base; "" leaves it unset, the built-in default then applies), and the command is started from the directory cwd.
+func CLIConfigured(extra []string, base, storagePath, cwd string, args ...string) (int, string, string, error) {
+	env := append([]string{}, extra...)
+	if storagePath != "" {
+		env = append(env, "DIRK_STORAGE_PATH="+storagePath)
+	}
+	for attempt := 0; ; attempt++ {
+		code, so, se, err := cliRun(env, base, cwd, args...)
+		if err == nil && code != 0 && strings.Contains(se, "Cannot acquire directory lock") && attempt < 20 {
+			time.Sleep(time.Duration(20*(attempt+1)) * time.Millisecond)
+			continue
+		}
+		return code, so, se, err
+	}
+}
+
+func cliRun(env []string, base, cwd string, args ...string) (int, string, string, error) {
+	bin, err := DirkBin()
+	if err != nil {
+		return -1, "", "", err
+	}
 	cmd := exec.Command(bin, append([]string{"--base-dir", base}, args...)...)
-	cmd.Env = append(os.Environ(), "DIRK_SERVER_NAME=verif", "DIRK_STORAGE_PATH="+storageDir, "HOME="+base)
-	cmd.Env = append(cmd.Env, extra...)
+	cmd.Dir = cwd
+	var inherited []string
+	for _, kv := range os.Environ() {
+		if !strings.HasPrefix(kv, "DIRK_STORAGE_PATH=") {
+			inherited = append(inherited, kv)
+		}
+	}
+	cmd.Env = append(inherited, "DIRK_SERVER_NAME=verif", "HOME="+base)
+	cmd.Env = append(cmd.Env, env...)
 	var so, se bytes.Buffer
 	cmd.Stdout, cmd.Stderr = &so, &se
 	err = cmd.Run()
